@@ -32,12 +32,26 @@ def run_txt(chk, tier, model_ok, tag):
     mods = [c06_txt.pinned_f1(), c06_txt.pinned_f13(), c06_txt.pinned_array(), c06_txt.pinned_enum(),
             c06_txt.pinned_anon_skip()]
     n_mod = 8 if tier == "quick" else 60
+    # `[requires]` attributes and the modules about views that are not Ok by content come from a
+    # second stream: module shapes and Ok buffers of the main stream are unchanged by them
+    r2 = common.rng(tag + "-requires")
     for i in range(n_mod):
-        mods.append((c06_gen.gen_module(r, "m%d" % i), "generated", None))
+        mod = c06_gen.gen_module(r, "m%d" % i)
+        c06_gen.decorate_requires(r2, mod)
+        mods.append((mod, "generated", None))
+    n_main = len(mods)
+    for i in range(1 if tier == "quick" else 6):
+        mod = c06_gen.gen_poison_module(r2, "nok%d" % i)
+        fixed = {}
+        for st in c06_txt.tops_of(mod):
+            b = c06_gen.build_buffer(r2, st, mod.default_order)
+            b.poison_variants = 3
+            fixed[st.name] = [b]
+        mods.append((mod, "generated:not-ok-by-content", fixed))
     c06_txt.run_modules(chk, mods, 2 if tier == "quick" else 5, r, model_ok, tier)
     if tier == "thorough":
         # second runtime code path (portable byte loops) and second compiler, on a subset
-        c06_txt.run_modules(chk, mods[:17], 2, r, model_ok, tier, compiler="g++",
+        c06_txt.run_modules(chk, mods[:17] + mods[n_main:n_main + 2], 2, r, model_ok, tier, compiler="g++",
                             defines=("EMBOSS_NO_OPTIMIZATIONS",), opt="-O1")
         chk.extra["second_code_path"] = "g++ -O1 -DEMBOSS_NO_OPTIMIZATIONS on the pinned + first 12 generated modules"
 
